@@ -24,12 +24,10 @@ Definition check_c14 (c : rcase) : list string :=
          else []
      | None => []
      end) ++
-    (* a single architecture is unaffected: the answer with allArchs = {arch} is an
+    (* a single architecture is unaffected: the answer with allArchs = {arch} is the
        answer of the PLAIN resolution (dq0 = []), as is the answer with allArchs =
-       nil.  Without install_if that means the two observed lists are equal; with
-       install_if the order of the additions follows Go's map iteration (finding
-       C08-F1) and may differ between two calls, so each list must be reproduced by
-       the plain model under some legal schedule. *)
+       nil: both observed lists must equal the plain model's (and hence each
+       other), install_if additions included (their order is fixed since c03e0c0). *)
     (match u_obs_plain r with
      | Some plain =>
          if Nat.leb (List.length (c_archs c)) 1 then
